@@ -429,6 +429,16 @@ class C08(Prop):
             except InvalidRequirement:
                 return True, "rejected (reported by parts_recovered)"
         if law == "parts_recovered":
+            # what earlier callers did with the requirements *they* parsed (they own them: extras is a set, the other parts are
+            # assignable) must not show in this one
+            for prior in ("zzz", "zzz>=1; os_name=='a'", "zzz[e] @ https://u.example/x", "zzz[]", s):
+                try:
+                    q = Requirement(prior)
+                except InvalidRequirement:
+                    continue
+                q.extras.add("scribble")
+                q.specifier.prereleases = True
+                q.marker, q.url, q.name = None, "https://scribble.example/", "scribble"
             try:
                 r = Requirement(s)
             except InvalidRequirement as e:
